@@ -295,6 +295,7 @@ func c17ResponseRun(t *testing.T, tape *simrt.Tape, o simwork.Opts) *simwork.Res
 	p := simwork.Bubble(t, func(t *testing.T) {
 		bubbleStart := time.Now()
 		defer func() { res.SimTime = time.Since(bubbleStart) }() // fake-clock time of the exchange (evidence only)
+		defer simnet.CloseAll()                                  // runs last: no connection goroutine outlives the run
 		simnet.Reset()
 		c17ResetPools()
 		simnet.Configure(simnet.Config{Seed: uint64(c.NetSeed), MaxSegment: 2048, SmallPermil: 250, MaxLatency: 500 * time.Microsecond})
